@@ -164,6 +164,45 @@ def bounded_trace_shape(tier, seed):
             msg = str(e)
             if not all(m in msg for m in must) or any(m in msg for m in must_not):
                 failures.append({'key': 'trace-branch', 'input': repr(spec), 'observed': msg[-400:], 'expected': 'contains %r, not %r' % (must, must_not), 'replay_code': None})
+    # an error finalised by an inner glom() call inside a user callable and re-raised through the outer call -- with and without the
+    # user code having looked at str(e) in between: the outer message begins with the OUTER root target and lists the outer levels
+    def _inner(observe):
+        def inner(t):
+            try:
+                return G(t, 'p.q')
+            except glom.GlomError as e:
+                if observe:
+                    str(e)
+                raise
+        return inner
+    for observe in (False, True):
+        for outer_spec_of in (lambda f: ('x', f), lambda f: {'k': ('x', f)}, lambda f: ('x', Coalesce('nope', T['y']), f)):
+            cases += 1
+            f = _inner(observe)
+            t, spec = {'x': {'p': {}, 'y': {'p': {}}}}, outer_spec_of(f)
+            try:
+                G(t, spec)
+                failures.append({'key': 'trace-refinalized', 'input': repr(spec), 'observed': 'no error', 'expected': 'error', 'replay_code': None})
+            except glom.GlomError as e:
+                ls = lines(str(e))
+                if not (ls and ls[0] == ('Target', glom.core.bbrepr(t)) and len(ls) > 1 and ls[1][0] == 'Spec' and ls[1][1][:8] == glom.core.bbrepr(spec)[:8]):
+                    failures.append({'key': 'trace-refinalized', 'input': {'observe_str_before_reraise': observe, 'spec': repr(spec)}, 'observed': str(e)[:400],
+                                     'expected': 'trace begins with the outer root target and root spec', 'replay_code': None})
+    # "ends with the type and message of the original error": a multi-line message (blank lines, caret / tilde pointer lines) survives intact
+    class ParseFailure(Exception):
+        pass
+    for text in ('bad expression in record:\n\n    total = price * (qty\n                    ^\nunbalanced parenthesis', 'two\nlines', '~~~\n^^^', 'x\n\n\ny'):
+        def raiser(t, text=text):
+            raise ParseFailure(text)
+        for spec in (raiser, ('a', raiser), {'k': ('a', raiser)}, Coalesce(('a', raiser), skip_exc=KeyError)):
+            cases += 1
+            try:
+                G({'a': {'b': 1}}, spec)
+                failures.append({'key': 'trace-tail', 'input': repr(text), 'observed': 'no error', 'expected': 'ParseFailure', 'replay_code': None})
+            except ParseFailure as e:
+                if not str(e).endswith('ParseFailure: ' + text):
+                    failures.append({'key': 'trace-tail', 'input': {'message': text, 'spec': repr(spec)[:80]}, 'observed': str(e)[-200:],
+                                     'expected': 'the message ends with %r' % ('ParseFailure: ' + text), 'replay_code': None})
     # truncation and non-ASCII
     for t in ({'a': 'x' * 500}, {'a': '\u00e9' * 10}):
         cases += 1
@@ -175,7 +214,7 @@ def bounded_trace_shape(tier, seed):
             bad = [ln for ln in msg.splitlines() if re.match(r'^[ |]*[-|+] (Target|Spec): ', ln) and len(ln) > width]
             if bad:
                 failures.append({'key': 'trace-width', 'input': repr(t)[:60], 'observed': 'line of %d chars' % len(bad[0]), 'expected': '<= %d' % width, 'replay_code': None})
-    return {'name': 'rendered trace vs the statement on planted failures', 'bound': 'chains/nestings depth<=4 x every failure position x 3 shapes; 4 branch scenarios; truncation',
+    return {'name': 'rendered trace vs the statement on planted failures', 'bound': 'chains/nestings depth<=4 x every failure position x 3 shapes; 4 branch scenarios; 6 re-finalised (inner glom() error re-raised) scenarios; 16 multi-line original messages; truncation',
             'cases': cases, 'failures': failures, 'label': 'bounded'}
 
 
@@ -183,7 +222,7 @@ BOUNDED = [bounded_trace_shape]
 ASSUMPTIONS = [
     'the breadcrumbs are written by _glom / chain_child (contracts proved here, shared with C08): LAST_CHILD_SCOPE on entry, CHILD_ERRORS / CUR_ERROR on failure, NO_PYFRAME re-wiring',
     'composition over arbitrary spec shapes (that the stack unpacked from the breadcrumbs is the list root spec ... failing spec) is NOT proved: it is covered by the labelled bounded stand-ins',
-    'traceback.format_exception_only / bbrepr / terminal width are opaque library values; GlomError.__str__ / _finalize are not under contract',
+    'traceback.format_exception_only / bbrepr / terminal width are opaque library values',
 ]
 TRUSTED = ['reference semantics contracts/ref_err.py']
 EXPLANATION = ('_unpack_stack (linear descent, branch detection, error push-down, trimming), format_target_spec_trace (target line iff a different object, spec / branch lines, '
